@@ -8,6 +8,12 @@ spec/StepsMC.tla    model checking: all interleavings (cfg *_full) and every gat
 spec/StepsTrace.tla validates event ledgers recorded from random concurrent sessions of the real code
 harness/cmd/steps   builds real CallableSchemas with recording handlers / a counting initializer that
                     double as gates, replays the schedules, runs the random sessions (also under -race)
+
+Step s2 (StepsMC: MapSteps) has a MAP-BASED input scope and signal data scope; besides the classes every step
+gets it is called with raw inputs that omit a defaulted property ("vd") or carry values in a representation the
+schema accepts by lenient conversion ("vl").  The abstract unserialized value is bound in the harness by an
+independent copy of the scope (reflect.DeepEqual with what its Unserialize returns).  The orchestrator hands
+the concrete forms of each raw-input class out round-robin, so every form in the harness's tables is exercised.
 """
 import os, json, re
 from vlib import common
@@ -26,6 +32,8 @@ STATEMENT_BITS = {
     "handler_skipped": "invokes a step's handler exactly once if and only if ...",
     "handler_twice": "invokes a step's handler exactly once",
     "wrong_argument": "passing it exactly the unserialized value",
+    "error_on_valid": "invokes a step's handler exactly once if and only if the step ID exists and the raw input is "
+                      "accepted by the step's input schema ... returns the handler's output ID with the serialized output",
     "wrong_output": "returns the handler's output ID with the serialized output",
     "accepts_bad_output": "only if that ID is declared and the data satisfies the declared output schema",
     "no_error": "otherwise returns an error",
@@ -38,7 +46,7 @@ def signature(m):
     s = m["sig"]
     sig = dict(op=s.get("op"), case=s.get("case"))
     sig["class"] = s.get("class")
-    for k in ("frame", "got"):
+    for k in ("frame", "got", "scope"):
         if s.get(k):
             sig[k] = s[k]
     return sig
@@ -57,10 +65,49 @@ def shape(case):
     return "conc" if conc else "seq"
 
 
-def call_key(c):
+def call_key(c, mapsteps=()):
+    st = "unknown" if c["step"] == "nostep" else ("map" if c["step"] in mapsteps else "known")
     if c["kind"] == "step":
-        return "step:%s:%s:%s" % ("known" if c["step"] != "nostep" else "unknown", c["input"], c["beh"])
-    return "signal:%s:%s:%s" % ("known" if c["step"] != "nostep" else "unknown", c["sig"], c["input"])
+        return "step:%s:%s:%s" % (st, c["input"], c["beh"])
+    return "signal:%s:%s:%s" % (st, c["sig"], c["input"])
+
+
+def assign_variants(ctx, cases, counters):
+    """hand the concrete forms (raw input, non-conforming output) out round-robin per call class: every form of
+    every class that has at least as many calls as forms is exercised, whatever order TLC wrote the states in"""
+    cases.sort(key=lambda c: json.dumps(c, sort_keys=True))
+    for case in cases:
+        vs = []
+        for c in case["calls"]:
+            k = call_key(c, case.get("mapsteps", ()))
+            vs.append(counters.setdefault(k, ctx.seed % 5040))
+            counters[k] += 1
+        case["variants"] = vs
+
+
+def note_forms(counts, r):
+    for f in r.get("forms", []):
+        counts["forms"].add(f)
+    for k, n in (r.get("form_tables") or {}).items():
+        counts["tables"][k] = n
+
+
+def check_form_coverage(ctx, counts):
+    """every concrete form of every raw-input class the schedules use must have been exercised"""
+    seen = {}
+    for f in counts["forms"]:
+        scope, kind, cls, name = f.split("/", 3)
+        seen.setdefault((scope, kind, cls), set()).add(name)
+    missing = []
+    for (scope, kind, cls), names in sorted(seen.items()):
+        want = counts["tables"].get("%s/%s" % (scope, cls))
+        if want is None:
+            raise common.Infra("the harness reports no form table for %s/%s" % (scope, cls))
+        if len(names) != want:
+            missing.append("%s/%s/%s: %d of %d" % (scope, kind, cls, len(names), want))
+    if missing:
+        raise common.Infra("raw-input forms not all exercised by the replayed schedules: " + "; ".join(missing))
+    return sum(len(v) for v in seen.values())
 
 
 def consume(ctx, cases, results, counts):
@@ -94,6 +141,8 @@ def consume(ctx, cases, results, counts):
         if r.get("stuck"):
             raise common.Infra("a call never returned (cannot be decided by this check): " + r["stuck"][:3000])
         ctx.evaluations += r.get("evals", 0)
+        if case.get("op") != "random":
+            note_forms(counts, r)
         if case.get("op") == "random":
             counts["sessions"] += r.get("sessions", 0)
             counts["clean"] += r.get("clean", 0)
@@ -109,7 +158,7 @@ def consume(ctx, cases, results, counts):
             counts["timeouts"] += r.get("timeouts", 0)
             same = len({(c["step"], c["run"]) for c in case["calls"]}) < len(case["calls"])
             ctx.distinct.add("%s/%s/%s" % (sh, "samekey" if same else "diffkey",
-                                           "|".join(sorted(call_key(c) for c in case["calls"]))))
+                                           "|".join(sorted(call_key(c, case.get("mapsteps", ())) for c in case["calls"]))))
         for m in r.get("mismatches", []):
             sig = signature(m)
             if m.get("drift"):
@@ -207,11 +256,15 @@ def run(ctx):
     thorough = ctx.tier == "thorough"
     ctx.rule = ("a vector is one complete gate-level schedule of StepsMC (terminal state): a call vector (step or "
                 "signal x known/unknown step and signal IDs x run x accepted/rejected raw input x handler behaviour "
-                "ok/second output/undeclared ID/non-conforming data x step with/without initializer) plus the order "
+                "ok/second output/undeclared ID/non-conforming data x step with/without initializer x input scope "
+                "struct-mapped/map-based, the map-based one also with raw inputs that omit a defaulted property or use "
+                "a representation accepted by lenient conversion) plus the order "
                 "of releases and arrivals at the gates (call begin, initializer, handler, return); distinct = "
                 "distinct (sequential|concurrent, same|different (step,run), multiset of call classes); non-trivial = "
-                "all (no default configuration exists); random sessions add distinct (kind, situation, behaviour)")
-    counts = dict(seq=0, conc=0, followed=0, drift=0, sessions=0, clean=0, raced=0, timeouts=0)
+                "all (no default configuration exists); random sessions add distinct (kind, situation, behaviour"
+                "[, raw-input class on the map-based step])")
+    counts = dict(seq=0, conc=0, followed=0, drift=0, sessions=0, clean=0, raced=0, timeouts=0, forms=set(), tables={})
+    variant_counters = {}
     cfgs = [("steps_thorough.cfg", "steps_thorough_full.cfg"), ("steps_thorough3.cfg", "steps_thorough3_full.cfg")] \
         if thorough else [("steps_quick.cfg", "steps_quick_full.cfg")]
     nvec = 0
@@ -221,15 +274,18 @@ def run(ctx):
         # every gate-normal-form schedule: exported and replayed into the real code
         vec = os.path.join(ctx.tmp, "steps-vectors-%d.ndjson" % i)
         r = model_check(ctx, normal, vec)
-        cases, results = run_driver(ctx, vec)
+        cases = common.read_ndjson(vec)
         if not cases:
             raise common.Infra("StepsMC/%s exported no schedule" % normal)
+        assign_variants(ctx, cases, variant_counters)
+        cases, results = run_driver(ctx, vec + ".cases", cases)
         for c in cases[:1] + cases[len(cases) // 2:len(cases) // 2 + 1] + cases[-1:]:
             ctx.sample(dict(calls=c["calls"], hist=["%s(%d)" % (h["ev"], h["p"]) for h in c["hist"]], res=c["res"]))
         consume(ctx, cases, results, counts)
         nvec += len(cases)
     ctx.traces += nvec
     ctx.exhaustive = True
+    nforms = check_form_coverage(ctx, counts)
 
     # code -> spec: random concurrent sessions, ledger validated by StepsTrace
     nper = 25
@@ -248,7 +304,9 @@ def run(ctx):
     ctx.traces += accepted
     if trace:
         ctx.sample(dict(trace_head=trace[:6]))
-    ctx.extra.update(schedules_replayed=nvec, schedules_sequential=counts["seq"], schedules_concurrent=counts["conc"],
+    ctx.extra.update(raw_input_forms_exercised_by_schedules=nforms,
+                     raw_input_forms_of_the_map_based_step=len([f for f in counts["forms"] if f.startswith("map/")]),
+                     schedules_replayed=nvec, schedules_sequential=counts["seq"], schedules_concurrent=counts["conc"],
                      schedules_followed_exactly=counts["followed"],
                      schedules_left_at_a_runtime_mutex_race=counts["raced"], arrival_timeouts=counts["timeouts"],
                      random_sessions=counts["sessions"],
@@ -268,6 +326,9 @@ def run(ctx):
         "of the statement held, is drift, not a violation",
         "data identity = the call whose initializer run created it (pointer identity in the harness); the initializer "
         "is attributed to its call by goroutine ID",
+        "the unserialized value of a raw input of a map-based scope is what an independent copy of that scope's "
+        "Unserialize returns (compared with reflect.DeepEqual); the hand-written normal forms of the harness's tables "
+        "are checked against it at start (binding check)",
         "a data race reported by the race detector inside schema/step.go, schema.go or signal.go is taken as a "
         "violation of once-per-run initialisation over all schedules; races elsewhere are left to C13",
     ]
@@ -277,7 +338,7 @@ def replay(ctx, rp):
     case = rp["replay"].get("case")
     if case is None:
         raise common.Infra("replay file has no case")
-    counts = dict(seq=0, conc=0, followed=0, drift=0, sessions=0, clean=0, raced=0, timeouts=0)
+    counts = dict(seq=0, conc=0, followed=0, drift=0, sessions=0, clean=0, raced=0, timeouts=0, forms=set(), tables={})
     path = os.path.join(ctx.tmp, "replay.ndjson")
     race = rp.get("signature", {}).get("class") == "data_race"
     reps = [case] * (5 if case.get("op") == "random" else 1)
